@@ -1721,6 +1721,7 @@ func (w *envelopingWriter) handleTrailer() error {
 		uncompressed := w.rw.op.bufferPool.Get()
 		defer w.rw.op.bufferPool.Put(uncompressed)
 		if err := w.rw.op.server.respCompression.decompressLimited(uncompressed, data, w.rw.op.messageLimit()); err != nil {
+			w.rw.reportError(err)
 			return err
 		}
 		data = uncompressed
@@ -1855,6 +1856,7 @@ func (w *transformingWriter) flushMessage() error {
 			data = w.rw.op.bufferPool.Get()
 			defer w.rw.op.bufferPool.Put(data)
 			if err := w.rw.op.server.respCompression.decompressLimited(data, w.buffer, w.rw.op.messageLimit()); err != nil {
+				w.rw.reportError(err)
 				return err
 			}
 		}
@@ -1948,7 +1950,12 @@ func (e *errorWriter) Close() error {
 			if e.respMeta.end.httpCode == 0 || e.respMeta.end.httpCode == http.StatusOK {
 				e.respMeta.end.httpCode = http.StatusInternalServerError
 			}
-			e.respMeta.end.err = connect.NewError(connect.CodeInternal, fmt.Errorf("failed to decompress body: %w", err))
+			if limitErr := (*connect.Error)(nil); errors.As(err, &limitErr) {
+				// the body is too large to be inflated: report that, with its own code
+				e.respMeta.end.err = limitErr
+			} else {
+				e.respMeta.end.err = connect.NewError(connect.CodeInternal, fmt.Errorf("failed to decompress body: %w", err))
+			}
 			body = nil
 		} else {
 			body = uncompressed
